@@ -73,6 +73,25 @@ CHECKS.update({
          "transitions change nothing; a handle outliving its mesh keeps its data, detached. Memory safety proper is observed by sanitizers over all 120 destruction orders, not proved.",
          "Coq invariant by induction over registry histories + refutation witness; lock-step correspondence; invariant oracle under ASan/UBSan", "6 C14"),
 })
+CHECKS.update({
+ "C06": ("proof", "OVMB: byte-level writer model equal to the real writer byte for byte; reader model in lock step on mutated files; round-trip / spec-decoding / re-encoding theorems as far as proved (see evidence notes for _partial). "
+         "OVM ASCII: token-level writer/reader models; round trip proved for meshes without properties (partial), integer printing/parsing round trip, refuted corners recorded (pending deletions D7, text-format limits). "
+         "Tie: write->read->compare and byte-exact writer comparison on generated meshes with all property types.",
+         "Coq proof over byte/token-level models of writer and reader + lock-step correspondence on generated and mutated files + round-trip oracle", "6 C06"),
+ "C07": ("proof", "Theorems: the OVMB reader model (decoder primitives need()-guarded as in the repaired code, explicit wrap-around arithmetic, fuelled chunk loop) never reaches the out-of-bounds outcome and success implies every stored handle in range "
+         "and every property sized; the ASCII reader model (istream-lite validated token-wise against std::istringstream) is total (no spin, no UB) under an explicit allocation bound and success implies a valid mesh. "
+         "Memory safety of the C++ object graph itself is observed by ASan/UBSan/_GLIBCXX_ASSERTIONS on ~14k (OVMB) + ~17k (ASCII) mutated inputs per quick run, not proved.",
+         "Coq totality/validity proofs over reader models + lock-step correspondence on field-aware mutations, truncations, noise under sanitizers", "6 C07"),
+ "C18": ("proof", "Theorems on the OVMB reader/writer models: every strict prefix of the writer's output is rejected; inconsistent framing fields are rejected per field class; a stream failing after k bytes never yields Ok. "
+         "Tie: every truncation length of small files, every header/sub-header field x boundary values, chunk drop/duplicate/reorder, fault-injecting streambuf on read and write side, in lock step.",
+         "Coq proof (prefix rejection, framing classes, stream failure) + lock-step correspondence with fault injection", "6 C18"),
+ "C15": ("proof", "Theorems on the tet kernel model (built on the kernel model): shape invariant over histories incl. rejected calls; get_cell_vertices / opposite vertex / opposite halfface contracts; vertex iterator; TetTopology label tables decided over "
+         "the whole finite domain; collapse_edge shape/handle results with the property-value behaviour refuted (known finding collapse-props-parity) and the strongest partial statement proved. Tie: tet scripts in lock step; brute-force oracles.",
+         "Coq proof over the tet kernel model (+ whole-domain vm_compute for label tables) + lock-step correspondence + shape/opposite/collapse oracles", "6 C15"),
+ "C16": ("proof", "Theorems on the hex kernel model: shape invariant; layout convention for cells created from 8 vertices or accepted with topology check (repaired code: the re-ordered list is verified); orientation tables over the whole domain; "
+         "hex_vertices pattern; sheet circulators. Tie: hex scripts incl. all 720 permutations of a valid halfface list (thorough) in lock step; layout oracle.",
+         "Coq proof over the hex kernel model (+ whole-domain vm_compute for orientation tables) + lock-step correspondence + layout oracle", "6 C16"),
+})
 NOT_YET = {}
 def main():
     props = [json.loads(l)["id"] for l in open(os.path.join(VERIF, "properties.jsonl"))]
